@@ -247,6 +247,7 @@ func TestC01History(t *testing.T) {
 	ev.SetRule("rapid-generated histories (1..N steps of batch(0-6 ops)/single op/reopen/force-merge/wait over 8 ids and 3 internal keys) on a drawn engine config, " +
 		"checked against the last-write-wins map after every step, then the flattened ops re-partitioned and replayed on a second drawn config and the two observable states compared; " +
 		"scheduled mode (scorch disk, unsafe batches): the same per-step check while persister and merger wait at 1-8 drawn window points for the writer's next call (8 ms cap); " +
+		"merge-window mode (scorch disk, unsafe batches): 1-3 windows; in-memory-merge window = persister parked at the end of a round, 2-4 batches pile up, one round starts and is stopped at persist.memMerge.afterFiles; file-merge window = 2-5 persisted segments force-merged with a plan of 2/3/10 segments per task and the merger stopped at merge.beforeIntroduce; 1-2 generated batches are written inside the window, state == model after every batch, after the merge introduction, after settling and after a reopen (non-trivial there = a write landed inside a window); " +
 		"non-trivial = some id is updated while live, deleted and re-created across >=2 batches, or a batch has >=2 ops on one id; distinct = hash of (configs, steps)")
 	ev.Assume("document ids and words are ASCII; internal values are non-empty")
 	engines := []string{EngScorchMem, EngScorchMem, EngScorchMem, EngUDGtreap, EngUDGtreap, EngUDMoss, EngScorchDisk, EngUDBolt, EngUDLevel}
